@@ -15,7 +15,8 @@ DEFAULT_PROFILE = {
     "p_ctx_shuffle": 0.2, "p_app_dup": 0.12, "p_rule_field_variant": 0.12, "p_defaults_lists": 0.12, "p_global_dep_order": 0.05,
     "p_late_ifthen_leaf": 0.06, "p_dup_listing": 0.08,
     "p_rule_rename_chain": 0.07, "p_ifthen_feature_cond": 0.07, "p_empty_blockallow": 0.07, "p_rule_export_escape": 0.07,
-    "p_optsrc_same_guard": 0.07, "p_subdirs_later_doc": 0.06, "p_shadowed_provider": 0.07, "p_two_patched_downloads": 0.05, "p_custom_build_no_out": 0.04, "p_cli_comma_define": 0.05, "p_self_named_unique": 0.05,
+    "p_optsrc_same_guard": 0.07, "p_subdirs_later_doc": 0.06, "p_shadowed_provider": 0.07, "p_two_patched_downloads": 0.05, "p_custom_build_no_out": 0.04, "p_cli_comma_define": 0.05, "p_self_named_unique": 0.05, "p_defaults_uses_removed": 0.05, "p_app_custom_build": 0.04, "p_same_dldir_downloads": 0.04,
+    "p_desc_with_builder": 0.05, "p_srcdir_in_root_download": 0.04, "p_provided_name_is_module": 0.05,
     "p_cycle": 0.02, "p_task_fail": 0.0, "p_root_noenv": 0.06, "p_out_per_builder": 0.3, "p_same_override": 0.15, "p_hard_missing": 0.03, "p_app_elsewhere": 0.25,
 }
 
@@ -418,9 +419,21 @@ def sibling_args(a, rng):
         opts += ["fewer-apps"]
     if b.get("partition"):
         opts += ["other-partition"]
-    if not opts:
-        return None
+    # always possible: the run itself, then a refused run (unknown builder), or a narrower run with the cache disabled (--info-export),
+    # and only then the run under test: the refused / cache-less run must not leave the first run's cache behind
+    opts += ["self-then-refused", "self-then-info-export"]
     how = rng.choice(opts)
+    if how == "self-then-refused":
+        return [dict(b), dict(b, builders=["nosuchbuilder"]), {"_how": how}]
+    if how == "self-then-info-export":
+        nb = dict(b, info_export=True)
+        if nb.get("apps") and len(nb["apps"]) > 1:
+            nb["apps"] = nb["apps"][:1]
+        elif nb.get("builders") and len(nb["builders"]) > 1:
+            nb["builders"] = nb["builders"][:1]
+        else:
+            nb["disable"] = list(nb.get("disable") or []) + ["m0"]
+        return [dict(b), nb, {"_how": how}]
     if how == "sel-kind":
         i = rng.randrange(len(b["select"]))
         x = b["select"][i]
